@@ -21,8 +21,15 @@ import (
 // virtual flag and name — all keys are distinct, and a deleted channel is in neither store.
 func VerifC15CrossStore() {
 	ctx := context.Background()
-	db := gorp.VerifOpenDB(&gorp.VerifKV{}, verifChanCodec())
+	store := &gorp.VerifKV{}
+	db := gorp.VerifOpenDB(store, verifChanCodec())
 	s := VerifNewService(db)
+	// the handlers run inside a transaction that the caller aborts when they fail: a failed handler's metadata
+	// writes are discarded
+	var snapK, snapV [][]byte
+	begin := func() { snapK, snapV = append([][]byte{}, store.Keys...), append([][]byte{}, store.Vals...) }
+	failed := false // some handler failed: its metadata writes were rolled back, its engine changes were not
+	abort := func() { store.Keys, store.Vals = snapK, snapV; failed = true }
 	s.cfg.TSChannel = cesium.HarnessNewDB(xfs.NewMem())
 	ckv := &verifCounterKV{}
 	cnt, err := openCounter(ctx, ckv, []byte("c"))
@@ -36,7 +43,10 @@ func VerifC15CrossStore() {
 			k := created[verifLen("delete.which", 0, len(created)-1)]
 			// deleting an index that still indexes a stored channel is refused by the engine; either way the
 			// stores must agree afterwards
-			_ = s.deleteGateway(ctx, db, Keys{k})
+			begin()
+			if err := s.deleteGateway(ctx, db, Keys{k}); err != nil {
+				abort()
+			}
 			continue
 		}
 		// a batch: an index channel, optionally followed by a data channel on it and/or a virtual channel
@@ -52,7 +62,9 @@ func VerifC15CrossStore() {
 		case 2:
 			opts.OverwriteIfNameExistsAndDifferentProperties = true
 		}
+		begin()
 		if err := s.createGateway(ctx, db, &batch, opts); err != nil {
+			abort()
 			continue
 		}
 		for _, ch := range batch {
@@ -60,8 +72,11 @@ func VerifC15CrossStore() {
 		}
 		if withData { // a data channel needs its index key, which the first create just assigned
 			data := []Channel{{Name: names[verifLen("data.name", 0, 2)], Leaseholder: 1, DataType: telem.Int64T, LocalIndex: batch[0].LocalKey}}
+			begin()
 			if err := s.createGateway(ctx, db, &data, opts); err == nil {
 				created = append(created, data[0].Key())
+			} else {
+				abort()
 			}
 		}
 	}
@@ -87,7 +102,11 @@ func VerifC15CrossStore() {
 	}
 	verifObserve("meta", int64(len(meta)))
 	verifObserve("engine", int64(len(engine)))
-	verifAssert("metadata-and-engine-hold-the-same-channels", same)
+	// Known finding C15-engine-not-rolled-back: the handlers change the engine before (create, overwrite) or
+	// after (delete) the metadata inside a metadata transaction; when a later step of the same handler fails,
+	// the transaction is aborted but the engine keeps the change. Histories in which every handler succeeded
+	// are checked without exception.
+	verifAssertKnown("metadata-and-engine-hold-the-same-channels", same, "C15-engine-not-rolled-back", failed)
 	distinct := true
 	for i := range meta {
 		for j := 0; j < i; j++ {
